@@ -33,7 +33,7 @@ PROPS = {
         "engines": [{"engine": "layers"}],
         "min_counters": {"any": {"layers.cases_h1_conn": 100000, "layers.cases_h2_conn": 100000, "layers.rejected_connect_on_h2": 1000}},
         "technique": "runtime differential monitor: the public SetHostHeader/Http2Checks/Http1Checks layers over a stub connection on an exhaustive request grammar vs an independent request-shape specification",
-        "level_text": "Every combination of the request grammar (8 schemes incl. mixed case, 7 host forms, 6 ports, 7 paths, 4 queries, 7 methods, 5 versions, 6 header presets, both connection protocols: 3.9 million cases, exhaustive in the thorough tier, a seeded 1/8 slice plus edge cases in the quick tier) is pushed through the real layers and the request that reaches the inner service is compared with the specification of the property.",
+        "level_text": "Every combination of the request grammar (8 schemes incl. mixed case, 7 host forms, 6 ports, 7 paths, 4 queries, 7 methods, 5 versions, 6 header presets, both connection protocols: 3.9 million cases, exhaustive in both tiers) is pushed through the real layers and the request that reaches the inner service is compared with the specification of the property.",
         "level_note": "Trusted: the specification function in harness/src/reqsweep.rs, the http crate's Uri Display (what hyper writes on the request line).",
         "design_ref": "DESIGN.md 3/C13",
     },
